@@ -32,6 +32,51 @@ theorem consistent_v10_partial : checkB opTable_v10 levels10impl false = true :=
 
 theorem consistent_v10_fails : checkB opTable_v10 levels10 false = false := by decide +kernel
 
+/-! #### the same for the 2.0+ parsers built with `compatibility_mode=True` (separately generated tables):
+compatibility mode must not change the grouping, the level tables are the same -/
+
+theorem consistent_v31c : checkB opTable_v31c levels31 true = true := by decide +kernel
+theorem consistent_v30c : checkB opTable_v30c levels30 true = true := by decide +kernel
+/-- PARTIAL (F04b), as `consistent_v20_partial` -/
+theorem consistent_v20c_partial : checkB opTable_v20c levels20impl true = true := by decide +kernel
+theorem guards_v31c : guardsB opTable_v31c = true := by decide +kernel
+theorem guards_v30c : guardsB opTable_v30c = true := by decide +kernel
+theorem guards_v20c : guardsB opTable_v20c = true := by decide +kernel
+
+theorem derives_v31c (toks : List Tok) (t : Tree) (h : parse (tableOf opTable_v31c) toks = .ok t) :
+    derivableR (gramOf levels31 true (syms opTable_v31c)) 0 t = true ∧ t.yield = toks :=
+  pratt_derives _ _ _ _ (consistent_of_check _ _ _ consistent_v31c) toks t h
+
+theorem derives_v30c (toks : List Tok) (t : Tree) (h : parse (tableOf opTable_v30c) toks = .ok t) :
+    derivableR (gramOf levels30 true (syms opTable_v30c)) 0 t = true ∧ t.yield = toks :=
+  pratt_derives _ _ _ _ (consistent_of_check _ _ _ consistent_v30c) toks t h
+
+theorem derives_v20c_partial (toks : List Tok) (t : Tree) (h : parse (tableOf opTable_v20c) toks = .ok t) :
+    derivableR (gramOf levels20impl true (syms opTable_v20c)) 0 t = true ∧ t.yield = toks :=
+  pratt_derives _ _ _ _ (consistent_of_check _ _ _ consistent_v20c_partial) toks t h
+
+theorem complete_v31c (t : Tree) (hd : derivable (gramOf levels31 true (syms opTable_v31c)) 0 t = true)
+    (hg : guardsPass (tableOf opTable_v31c) t = true) : parse (tableOf opTable_v31c) t.yield = .ok t :=
+  pratt_complete _ _ _ _ (consistent_of_check _ _ _ consistent_v31c) (pos_of_check _ _ _ consistent_v31c) t hd hg
+
+theorem complete_v30c (t : Tree) (hd : derivable (gramOf levels30 true (syms opTable_v30c)) 0 t = true)
+    (hg : guardsPass (tableOf opTable_v30c) t = true) : parse (tableOf opTable_v30c) t.yield = .ok t :=
+  pratt_complete _ _ _ _ (consistent_of_check _ _ _ consistent_v30c) (pos_of_check _ _ _ consistent_v30c) t hd hg
+
+theorem complete_v20c_partial (t : Tree) (hd : derivable (gramOf levels20impl true (syms opTable_v20c)) 0 t = true)
+    (hg : guardsPass (tableOf opTable_v20c) t = true) : parse (tableOf opTable_v20c) t.yield = .ok t :=
+  pratt_complete _ _ _ _ (consistent_of_check _ _ _ consistent_v20c_partial)
+    (pos_of_check _ _ _ consistent_v20c_partial) t hd hg
+
+/-- in compatibility mode too, `- 1 instance of T` is `(-1) instance of T` (2.0 [16]-[20]: UnaryExpr is below
+InstanceofExpr … CastExpr and UnionExpr) -/
+theorem unary_typed_compat :
+    (modelParse opTable_v20c [opTok opTable_v20c "-", num 1, opTok opTable_v20c "instance", .ty 0]).toOption =
+      some (.typed (opTable_v20c.findIdx (·.sym == "instance")) (.pre (opTable_v20c.findIdx (·.sym == "-")) (.atom 1 1)) 0) ∧
+    (modelParse opTable_v20c [opTok opTable_v20c "-", num 1, opTok opTable_v20c "instance", .ty 0]).toOption =
+      specParse levels20 true opTable_v20c [opTok opTable_v20c "-", num 1, opTok opTable_v20c "instance", .ty 0] := by
+  decide +kernel
+
 /-- the guards of the optional-once operators are complete within their class: a general comparison
 rejects a general comparison as left operand, a value comparison a value comparison, `is` an `is`,
 `to` a `to` (2.0, 3.0, 3.1; the 1.0 table has the general class only) -/
